@@ -128,6 +128,8 @@ def _owner_of_names(trace):
             for f in frames:
                 if isinstance(f, str) and f.startswith('0') and '"sid":"' in f:
                     walk(f.split('"sid":"', 1)[1].split('"', 1)[0], t)
+                elif isinstance(f, dict) and isinstance(f.get('mp'), dict) and f['mp'].get('type') == 0:
+                    walk(f['mp'].get('data'), t)
     return owner
 
 
@@ -150,6 +152,8 @@ def _map_op(op, m):
 
 
 def _rename(v, m):
+    if isinstance(v, dict) and 'mp' in v and len(v) == 1:
+        return {'mp': _rename_exact(v['mp'], m)}
     if isinstance(v, str):
         for a, b in m.items():
             if a in v:
@@ -162,7 +166,69 @@ def _rename(v, m):
     return v
 
 
+def _rename_exact(v, m):
+    if isinstance(v, str):
+        return m.get(v, v)
+    if isinstance(v, (list, tuple)):
+        return [_rename_exact(x, m) for x in v]
+    if isinstance(v, dict):
+        return {k: _rename_exact(x, m) for k, x in v.items()}
+    return v
+
+
 def oracle(cfg, trace, residue, info):
+    fails = two_run(cfg, trace, info, None)
+    if not fails:
+        mp_ops = to_msgpack_ops([o for o, _, _ in trace])
+        so = {'serializer': 'msgpack'}
+        try:
+            obs1, _ = S.execute_impl(info['mode'], cfg, mp_ops, info['coro'], server_opts=so)
+            fails = [(sig, 'msgpack serializer: ' + t) for sig, t in
+                     two_run(cfg, [(o, im, None) for o, im in zip(mp_ops, obs1)], info, so)]
+        except Exception as ex:   # noqa
+            fails = [(None, 'msgpack run failed: %r' % (ex,))]
+    return fails
+
+
+def to_msgpack_ops(ops):
+    """the same scenario for a server with serializer='msgpack': every complete client packet becomes
+    one msgpack frame; frames that are not a well-formed packet become msgpack-level garbage"""
+    import msgpack
+    cf = S.ClientFrames()
+    out = []
+    garbage = [lambda t: t.encode('utf-8', 'replace') or b'\xc1', lambda t: msgpack.dumps(t), lambda t: msgpack.dumps({'type': 2}),
+               lambda t: msgpack.dumps({'type': 2, 'nsp': '/', 'data': 'notalist'}),
+               lambda t: msgpack.dumps({'type': 99, 'nsp': '/'}), lambda t: msgpack.dumps({'type': 0, 'nsp': 5}),
+               lambda t: msgpack.dumps({'type': 3, 'nsp': '/', 'id': [1], 'data': []}),
+               lambda t: msgpack.dumps({'type': 2, 'nsp': '/a', 'data': [['x']], 'id': 'i'}),
+               lambda t: msgpack.dumps([1, 2, 3]), lambda t: msgpack.dumps({'type': 1, 'nsp': '/nope'}),
+               lambda t: msgpack.dumps({'type': 5, 'nsp': '/', 'data': ['msg']}), lambda t: b'\x81\xa4type']
+    for op in ops:
+        if op['op'] not in ('frame', 'frameval'):
+            out.append(op)
+            continue
+        if op['op'] == 'frameval' and not isinstance(op['v'], (bytes, bytearray)) and op.get('_hostile'):
+            out.append(op)
+            continue
+        p = cf.feed(op)
+        if p == 'incomplete':
+            continue
+        if isinstance(p, dict) and isinstance(p['type'], int) and not op.get('_hostile'):
+            d = {'type': p['type'], 'data': p['data'], 'nsp': p['ns']}
+            if p['id'] is not None:
+                d['id'] = p['id']
+            try:
+                out.append({'op': 'frameval', 't': op['t'], 'v': msgpack.dumps(d)})
+                continue
+            except Exception:   # noqa   (e.g. an integer beyond 64 bits)
+                pass
+        key = op.get('text') if op['op'] == 'frame' else repr(op['v'])
+        g = garbage[sum(map(ord, key)) % len(garbage)]
+        out.append({'op': 'frameval', 't': op['t'], 'v': g(key), '_hostile': True})
+    return out
+
+
+def two_run(cfg, trace, info, server_opts):
     fails = []
     owner = _owner_of_names(trace)
     # names as they will be in the run without the offender
@@ -183,7 +249,7 @@ def oracle(cfg, trace, residue, info):
         addr = [op.get('sid'), op.get('room')] + ([op['to'].get('one')] + op['to'].get('many', []) if op.get('to') else [])
         ops2.append((_map_op(op, m), im, any(a in owner and owner[a] == OFF for a in addr if a)))
     try:
-        obs2, _names2 = S.execute_impl(info['mode'], cfg, [o for o, _, _ in ops2], info['coro'])
+        obs2, _names2 = S.execute_impl(info['mode'], cfg, [o for o, _, _ in ops2], info['coro'], server_opts=server_opts)
     except Exception as ex:   # noqa
         return [(None, 'the run without the offender failed: %r' % (ex,))]
     inv_m = m
@@ -306,7 +372,7 @@ def run(ctx):
                             'other namespaces; both server families vs the model, and each scenario re-run without the offender '
                             '(bystander-visible packets, handler invocations, callbacks, rooms()/session answers must be equal). '
                             'non-trivial = >=3 hostile frames and >=2 active bystanders')
-    ctx.assumptions.append('msgpack serializer: not covered by this revision of the check (default serializer only)')
+    ctx.assumptions.append('msgpack serializer: covered by the two-run oracle on the real servers only (the Lean model is of the default packet class)')
 
 
 def replay(ctx, r):
